@@ -166,10 +166,14 @@ def parsed_fold(ctx, spelling):
     return None, fn
 
 
-def obligations():
+def _obligations():
     return [
         Obligation("O10.1", "index vectors of the subunit lattice have exactly n elements; stores respect the table's row order", o101, floor=3),
         Obligation("O10.2", "orientation R*Rz(k*360/n) and complete position centre + R*Rz(k*360/n)*s, integer x,y,z", o102, floor=7),
         Obligation("O10.4", "geom5 parent, geom2 subunit index, unique subtomogram numbers, inherited fields, n rows per parent", o104, floor=12),
         Obligation("O10.5", "'Cn', 'cn' and numeric spellings select the same n", o105, floor=50),
     ]
+
+
+def obligations():
+    return _obligations() + [effects_obligation("C10")]
